@@ -1,7 +1,9 @@
 CONSTANTS
+  Strict = TRUE
   Variant = "ok"
   MaxMoves = 1
   CfgSel = {"workday", "oneshot"}
+  StartSel = {1, 2}
 SPECIFICATION CSpec
 CONSTRAINT Bound
 VIEW View
